@@ -147,7 +147,11 @@ func dischargeOne(o *Obligation, file string, timeout time.Duration) float64 {
 		// expected: NOT provable. All three solvers get a short run; one "unsat" means the assumptions are contradictory.
 		resCh := make(chan solverRes, 3)
 		for _, sv := range []string{"z3-new", "z3", "cvc5"} {
-			go func(sv string) { resCh <- runSolver(ctx, sv, file, 4*time.Second) }(sv)
+			to := 4 * time.Second
+			if o.Name == "cover.axioms" {
+				to = 15 * time.Second
+			}
+			go func(sv string) { resCh <- runSolver(ctx, sv, file, to) }(sv)
 		}
 		o.Result = "proved"
 		for i := 0; i < 3; i++ {
